@@ -99,8 +99,8 @@ impl Transport {
 			}
 		}
 		self.position = position;
-		if self.position >= num_frames {
-			self.playing = false;
-		}
+		// seeking back into the sound resumes a transport that already ran off the end
+		// (it runs a few frames ahead of what is heard, so the sound may still be playing)
+		self.playing = self.position < num_frames;
 	}
 }
